@@ -71,6 +71,10 @@ impl Class {
 pub enum Verdict {
     Accept(Toks),
     Reject(Class),
+    /// not one of the listed command-error classes, but accepting it would necessarily
+    /// misrepresent the input (a non-decimal literal whose value does not fit the lexer's value
+    /// type cannot "carry its exact value"): it must be refused with *some* error
+    MustNotAccept(&'static str),
     Unspec(&'static str),
 }
 
@@ -387,7 +391,7 @@ impl<'a> P<'a> {
                     return uns("non-decimal literal without digits");
                 }
                 if overflow {
-                    return uns("non-decimal literal above 64 bits");
+                    return Err(Verdict::MustNotAccept("non-decimal literal above 64 bits"));
                 }
                 self.push(Tok::NonDec(v))
             }
@@ -611,6 +615,9 @@ pub fn self_check() -> Result<(), String> {
         if v != Verdict::Reject(*c) {
             return Err(format!("lex488 self-check: `{}` -> {:?}, expected reject {:?}", crate::core::esc(s), v, c));
         }
+    }
+    if !matches!(lex(b"A #H10000000000000000"), Verdict::MustNotAccept(_)) || !matches!(lex(b"A #HFFFFFFFFFFFFFFFF"), Verdict::Accept(_)) {
+        return Err("lex488 self-check: non-decimal overflow".into());
     }
     let uns: &[&[u8]] = &[b"A 1 E5", b"A #H+FF", b"A 1\nB", b"A;;B", b"A?B", b"1A", b"A 1E", b"A (1;2)", b"A (1", b"A \x00", b"A ?"];
     for s in uns {
